@@ -44,6 +44,7 @@ void h_keyaggcoef(void) {
         __CPROVER_assert(!pk.infinity && ge_ok(&pk) && fe_same_or_normalised(fval(&pk.x), fval(&pk0.x)) && fe_same_or_normalised(fval(&pk.y), fval(&pk0.y)), "C12 keyaggcoef: pk keeps its value (coordinates unchanged or canonical)");
         if (same) { __CPROVER_assert(sval(&r) == 1 && g_fin_n == 0 && g_h_fresh == 1, "C12 keyaggcoef: the second key gets coefficient 1, nothing is hashed"); REACH("keyaggcoef second key"); }
         else {
+            __CPROVER_assert(sval(&r) != 1 || g_fin_n == 1, "C12 keyaggcoef: a key that is not the second key (x AND y equal mod p) never gets the constant coefficient 1; its coefficient is the hash");
             __CPROVER_assert(g_fin_n == 1 && g_w_started && g_w_b0 == 64 && g_w_s0 == 0x6ef02c5aul && g_w_s7 == 0x4484be15ul, "C12 keyaggcoef: one hash from the KeyAgg coefficient midstate with 64 bytes absorbed");
             __CPROVER_assert(g_w_fin && g_w_end == 64 + 32 + 33, "C12 keyaggcoef: hash absorbs 65 bytes");
             be_bytes(xb, px);
